@@ -22,7 +22,7 @@ from .hmcmass import momentum_obligations
 
 HMC = "inference/mcmc/hmc/__init__.py"
 MASS = "inference/mcmc/hmc/mass.py"
-FLOORS = {"float-arithmetic": 2, "splitting-structure": 2, "shear": 2, "mass-law": 3, "momentum-law": 3, "hamiltonian-consistent": 2,
+FLOORS = {"fd-probe-inside-bounds": 1, "float-arithmetic": 2, "splitting-structure": 2, "shear": 2, "mass-law": 3, "momentum-law": 3, "hamiltonian-consistent": 2,
           "fd-denominator": 1, "reflect-commutes-with-mass": 3, "force-is-potential-gradient": 2}
 
 
@@ -34,8 +34,15 @@ def hmc_expander(prog, ci):
 
 
 def run(prog, tier):
+    # the estimated gradient can only approximate the true one where the log-density is defined: every probe of the finite
+    # difference stays inside the bounds - the clause C07 shares with C04, decided there
+    from .common import borrow
+    shared = [o for o in borrow(prog, tier, "C04", {"hmc-posterior-args"}, "fd-probe-inside-bounds",
+                                "a finite-difference probe outside the box evaluates the log-density where it may be undefined (-inf): "
+                                "the estimate is then not an approximation of the gradient") if "finite_diff" in o.construct]
     anf.reset()
     obs, info = [], []
+    obs.extend(shared)
     unroll = 3 if tier == "thorough" else 2
     ci = prog.cls("HamiltonianChain")
 
